@@ -413,7 +413,7 @@ pub fn run(run: &Run) {
         });
     }
     // longer deterministic series
-    let coefsets: Vec<Vec<f64>> = vec![vec![0.5], vec![-0.7], vec![0.6, -0.3], vec![0.2, 0.1, -0.4], vec![0.5, -0.25, 0.125, -0.0625], vec![0.3, 0.0, 0.0, 0.0, 0.2, -0.3], vec![0.9], vec![1.2, -0.5]];
+    let coefsets: Vec<Vec<f64>> = vec![vec![0.5], vec![-0.7], vec![0.6, -0.3], vec![0.2, 0.1, -0.4], vec![0.5, -0.25, 0.125, -0.0625], vec![0.3, 0.0, 0.0, 0.0, 0.2, -0.3], vec![0.9], vec![1.2, -0.5], vec![0.995], vec![0.6, 0.39]];
     let lens: Vec<usize> = if run.thorough() { vec![50, 100, 200, 1000, 1025, 2049, 5000] } else { vec![50, 200, 1000, 1025, 3000] };
     let pmax = run.tier.pick(9usize, 12usize); // orders ≥ 8 reach the unrolled part of the dot kernel
     let mut jobs = Vec::new();
